@@ -51,13 +51,14 @@ def emitValue {F} (ops : FloatOps F) (env : Env) (fuel : Nat) (m : Member) : Exc
 /-! ## reading the emitted text back -/
 
 /-- what a C++ / Python reader makes of the emitted text: a number (decimal text, or a literal token), optionally in
-    parentheses, or a text between double quotes. Floats stay abstract: the text is Python's `str(x)` or a token `float()` reads as `x`. -/
+    parentheses, or a text between double quotes — which must not contain a double quote itself (the template prints the content
+    raw: `"say "hi""` is not one C++ literal; contents here are free of backslashes, so there is no `\"`). Floats stay abstract: the text is Python's `str(x)` or a token `float()` reads as `x`. -/
 inductive Denotes {F : Type} (ops : FloatOps F) : Str → V F → Prop where
   | dec {t : Str} {n : Int} : Str.decToInt? t = some n → Denotes ops t (.int n)
   | intTok {tok : Str} {n : Int} : pyIntLit .py tok = .ok n → Denotes ops tok (.int n)
   | floatStr (x : F) : Denotes ops (ops.toStr x) (.float x)
   | floatTok {tok : Str} {x : F} : ops.parse tok = .ok x → Denotes ops tok (.float x)
-  | str (c : Str) : Denotes ops ('"' :: (c ++ ['"'])) (.str c)
+  | str (c : Str) : c.contains '"' = false → Denotes ops ('"' :: (c ++ ['"'])) (.str c)
   | parenInt {t : Str} {n : Int} : Denotes ops t (.int n) → Denotes ops ('(' :: (t ++ [')'])) (.int n)
   | parenFloat {t : Str} {x : F} : Denotes ops t (.float x) → Denotes ops ('(' :: (t ++ [')'])) (.float x)
 
